@@ -192,6 +192,26 @@ func Drivers(nthreads int) []Driver {
 				*out = append(*out, obsMap(m, d))
 			}}
 		}},
+		{"9 shared slice schema on long slices (12+ items), issues at high indexes", nthreads, func() *Shared {
+			s := z.Slice(z.String().Min(3)).Min(1)
+			return &Shared{Thread: func(i int, out *[]string, yield func()) {
+				n := 12 + i
+				in := make([]any, n)
+				val := make([]string, n)
+				for k := range in {
+					in[k], val[k] = "okay", "okay"
+				}
+				// failing items at thread-specific high indexes
+				for _, k := range []int{10 + i%2, n - 1} {
+					in[k], val[k] = "x", "x"
+				}
+				var d []string
+				m := s.Parse(in, &d)
+				*out = append(*out, obsMap(m, len(d)))
+				m2 := s.Validate(&val)
+				*out = append(*out, obsMap(m2, len(val)))
+			}}
+		}},
 		{"8 shared Time/Bool/Float schemas with defaults and OneOf lists", nthreads, func() *Shared {
 			list := []float64{1.5, 2.5}
 			t0 := time.Date(2024, 1, 1, 0, 0, 0, 0, time.UTC)
